@@ -12,6 +12,7 @@ mod rng;
 mod util;
 
 mod corr_filters;
+mod corr_geom;
 
 use std::io::Write;
 
@@ -92,6 +93,7 @@ fn main() {
     match cmd.as_str() {
         "corr-filters" => corr_filters::corr(&mut ctx),
         "oracle-c19" => corr_filters::oracle(&mut ctx),
+        "corr-geom" => corr_geom::corr(&mut ctx),
         _ => {
             eprintln!("unknown stream {cmd}");
             std::process::exit(2);
